@@ -36,6 +36,10 @@ CoverFor(k) == CASE k = "roa"  -> {"ok", "outside", "wider", "straddle", "nores"
 Conforming == [f \in Facets |-> "ok"]
 \* ---- the statement
 Accept(o) == \A f \in Facets : o.f[f] = "ok"
+\* Every entry point takes a `strict` flag (DER vs BER decoding; in relaxed mode signed attributes the profile does not know are
+\* skipped instead of refused).  The statement holds in both modes; about unknown attributes it says nothing, so a relaxed-mode
+\* verdict on such an object is not compared.
+DecidedRelaxed(o) == o.f.attrs # "unknown"
 \* ---- what the library checks where (decode vs validation), for diagnosis only
 DecodeRejects(o) == o.f.attrs # "ok" \/ o.f.ctattr # "ok"
 
